@@ -59,15 +59,15 @@ fn gen_first_model(r: &mut Rng, o: &FullOpts, ids: &mut usize) -> SModel {
                     let (x, y, z) = if o.in_range {
                         let edge = |r: &mut Rng| if r.chance(1, 12) { *r.pick(&[-999_999_000i64, 9_999_999_000]) } else { r.range(-99_999, 99_999) * 1000 };
                         (edge(r), edge(r), edge(r))
-                    } else if r.chance(1, 16) {
+                    } else if o.target == Target::Pdb && r.chance(1, 16) {
                         // values between the largest number a column can show and the next one it cannot: they would be
                         // rounded up into one digit more than the column holds
                         let just = |r: &mut Rng| *r.pick(&[9_999_999_600i64, 9_999_999_900, 9_999_999_001, -999_999_600, -999_999_900, 1_000]);
                         (just(r), just(r), just(r))
                     } else { (step(r, -1_000_000, 10_000_000, 1000), step(r, -99_999, 99_999, 1000), step(r, -99_999, 99_999, 1000)) };
                     let just2 = |r: &mut Rng| *r.pick(&[999_996_000i64, 999_999_000, 999_997_000, 999_990_001, -99_996_000, -99_999_000]);
-                    let occ = if o.in_range { if r.chance(1, 12) { *r.pick(&[999_990_000i64, 0]) } else { r.range(0, 100) * 10_000 } } else if r.chance(1, 16) { just2(r) } else { r.range(0, 100_001) * 10_000 };
-                    let bf = if o.in_range { r.range(0, 99_999) * 10_000 } else if r.chance(1, 16) { just2(r) } else { r.range(0, 100_001) * 10_000 };
+                    let occ = if o.in_range { if r.chance(1, 12) { *r.pick(&[999_990_000i64, 0]) } else { r.range(0, 100) * 10_000 } } else if o.target == Target::Pdb && r.chance(1, 16) { just2(r) } else { r.range(0, 100_001) * 10_000 };
+                    let bf = if o.in_range { r.range(0, 99_999) * 10_000 } else if o.target == Target::Pdb && r.chance(1, 16) { just2(r) } else { r.range(0, 100_001) * 10_000 };
                     let atf = if o.target == Target::Cif && r.chance(1, 10) {
                         // mmCIF has nine columns: the tensor need not be symmetric
                         let mut t = [0i64; 9]; for v in t.iter_mut() { *v = r.range(-9999, 9999) * 100; } Some(t)
